@@ -254,6 +254,43 @@ def generate(repo: str) -> str:
         for n in ast.walk(gd):
             if isinstance(n, ast.Assign) and len(n.targets) == 1 and ast.unparse(n.targets[0]) == "params[p1, p2]":
                 acc.append(("get_full_data.params[p1, p2]", ast.unparse(n.value)))
+    # source text of the matrix-building statements of every documented block (C09): normalised by ast.unparse
+    def build_text(cname):
+        c = classes.get(cname)
+        if c is None:
+            return "missing"
+        fns = {n.name: n for n in c.body if isinstance(n, ast.FunctionDef)}
+        fn = fns.get("create_S") or fns.get("__init__")
+        if fn is None:
+            return "missing"
+        keep = []
+        for st in fn.body:
+            if isinstance(st, ast.Expr) and isinstance(st.value, ast.Constant):
+                continue
+            txt = ast.unparse(st)
+            if any(tok in txt for tok in ("self.S", "np.", "S[", "S1", "S2", "diag_blocks", "return")):
+                if txt.startswith("self.pin_dic") or txt.startswith("self.default_params") or txt.startswith("self.update_pins"):
+                    continue
+                keep.append(" ".join(txt.split()))
+        return " ; ".join(keep)
+    def build_text_init(cname):
+        c = classes.get(cname)
+        fns = {n.name: n for n in c.body if isinstance(n, ast.FunctionDef)} if c is not None else {}
+        fn = fns.get("__init__")
+        if fn is None:
+            return "missing"
+        keep = []
+        for node in ast.walk(fn):
+            if isinstance(node, ast.Assign):
+                txt = " ".join(ast.unparse(node).split())
+                if ("np." in txt or "self.S" in txt) and not txt.startswith(("self.pin_dic", "self.default_params")):
+                    keep.append(txt)
+        return " ; ".join(keep)
+    block_src = [(b, build_text(b)) for b in DOC_BLOCKS] + [("PolRot.__init__", build_text_init("PolRot"))]
+    out += ["", "/-- matrix-building statements of every documented block as written in the source -/",
+            "def blockSource : List (String × String) := ["]
+    out.append(",\n".join(f"  ({lean_str(b)}, {lean_str(t)})" for b, t in block_src) + "]")
+
     # purity facts (C06)
     def src_tree(path):
         return tree(path)
